@@ -7,7 +7,7 @@ STUBS = []
 ASSUMPTIONS = ["the property's own exclusion is applied as an assumption on the sweep parameter: direction cosines between the two primitives' axes/normals/edges are not strictly inside (0,1e-2) of 0 or of 1"]
 BOUNDS = {"quick": "2 base primitive pairs x 11 one-parameter sweeps per function (29 convex-pair functions); optimality stated as a finite separating-plane certificate over vertices / invariant directions / closed-form support values - never as a quantifier over competing points",
           "thorough": "all corpus pairs x 17 sweeps incl. 2-parameter translations"}
-WALL_BUDGET = {"quick": 420, "thorough": 900}
+WALL_BUDGET = {"quick": 300, "thorough": 600}
 EXPECTED_EXCEPTIONS = ()
 
 
